@@ -282,7 +282,7 @@ def run(ctx):
     path = os.path.join(d, 'cases.txt')
     with open(path, 'w') as f:
         f.write('\n'.join(lines) + '\n')
-    impl, _ = core.run_tool(ctx.harness, ['c17', path], timeout=3000)
+    impl, _ = core.run_tool_sharded(ctx.harness, ['c17'], path)
     impl = [l for l in impl if l]
     by = {int(l.split(' ')[1]): l for l in impl}
     stats = {'map_ops': 0, 'from': 0, 'ws_built': 0, 'with_duplicates': 0}
@@ -359,7 +359,7 @@ def run(ctx):
                 if not wss.endswith(want_ws):
                     ctx.violation('a workshop built from an UPDATE does not carry the message\'s attributes', case=lines[i][:600], impl=wss[:300], want=want_ws[:300])
     if ctx.model:
-        model, _ = core.run_tool(ctx.model, ['c17', path], timeout=3000)
+        model, _ = core.run_tool_sharded(ctx.model, ['c17'], path)
         for k, a, b in core.diff_lines(model, impl, limit=5):
             idx = int((a if a != '<missing>' else b).split(' ')[1])
             ctx.violation('model and implementation disagree', case=lines[idx][:600], model=a[:400], impl=b[:400])
